@@ -1,8 +1,10 @@
 #!/bin/bash
-# run every seeded mutant against the check of its own property (quick tier); prints one line per mutant
+# run every seeded change against the quick check of its own property; one line per change.
+# Uses scratch worktrees (tools/run_mutant_wt.sh): /repo's working tree is never modified. $1 = parallel jobs (default 3)
 cd /verif
+J="${1:-3}"
 for d in seeded/*/; do
   name=$(basename $d)
   pid=$(/venv/bin/python -c "import json;print(json.load(open('$d/meta.json'))['property'])")
-  tools/run_mutant.sh $name $pid quick | head -1
-done
+  echo "$name $pid"
+done | xargs -P $J -L 1 sh -c 'tools/run_mutant_wt.sh $0 $1 quick | head -1'
